@@ -5,6 +5,7 @@ import (
 	"os"
 	"path/filepath"
 	"regexp"
+	"sort"
 	"strings"
 )
 
@@ -503,4 +504,49 @@ func replayModes(n *Native, job *Job, v *Violation) (ReplayResult, bool) {
 		res.Reproduced = bad
 	}
 	return res, true
+}
+
+// replayDeterminism re-judges a C05 program-level counterexample natively: the same command
+// is run repeatedly (fresh map randomisation per process) until two outputs differ.
+func replayDeterminism(n *Native, job *Job, v *Violation) (ReplayResult, bool) {
+	src, ok := v.Witness["src"]
+	if v.Kind != "assert" || !ok {
+		return ReplayResult{}, false
+	}
+	args := append([]string{"./a.rb"}, strings.Fields(v.Witness["flags"])...)
+	cfg := nativeConfigFor(n, job, src)
+	isDefine := strings.Contains(v.Witness["flags"], "--define")
+	norm := func(s string) string {
+		if !isDefine {
+			return s
+		}
+		ls := strings.Split(s, "\n")
+		sort.Strings(ls)
+		return strings.Join(ls, "\n")
+	}
+	first, _, _ := n.RunTi(map[string]string{"a.rb": src}, args, cfg)
+	res := ReplayResult{Cmd: "ti " + strings.Join(args, " ") + "   (repeated up to 40 times)"}
+	for i := 0; i < 40; i++ {
+		out, _, _ := n.RunTi(map[string]string{"a.rb": src}, args, cfg)
+		if strings.TrimSpace(out) == "timeout" || strings.TrimSpace(first) == "timeout" {
+			continue
+		}
+		if norm(out) != norm(first) {
+			res.Reproduced = true
+			res.Observed = fmt.Sprintf("two runs of the same command printed different output (run 1 vs run %d); first difference near: %q vs %q", i+2, firstDiff(first, out), firstDiff(out, first))
+			return res, true
+		}
+	}
+	res.Observed = "40 native runs printed identical output"
+	return res, true
+}
+
+func firstDiff(a, b string) string {
+	la, lb := strings.Split(a, "\n"), strings.Split(b, "\n")
+	for i := range la {
+		if i >= len(lb) || la[i] != lb[i] {
+			return la[i]
+		}
+	}
+	return ""
 }
